@@ -132,10 +132,10 @@ def run(ctx: Ctx) -> int:
         c["frame"] = fr
         if j == 0:
             c["req"] = dict(c["req"], eco=not c["req"]["eco"])
-            c["devstate"] = c["req"]
+            c["devstate"] = dict(c["devstate"], eco=c["req"]["eco"])
         elif j == 1:
             c["req"] = dict(c["req"], t2=c["req"]["t2"] + (1 if c["req"]["t2"] < 87 else -1))
-            c["devstate"] = c["req"]
+            c["devstate"] = dict(c["devstate"], t2=c["req"]["t2"])
         elif j == 2:
             fr[11 + 9] ^= 0x04      # dry-clean bit: unrequested feature
             fr[-2] = acdev.crc8(bytes(fr[10:-2]))
